@@ -145,6 +145,20 @@ static CCodeList gcvDefCC;		/* List of defined C variables */
 static CCodeList gcvBIntCC;		/* List of bigints for init prog */
 static CCodeList gcvRRFmtCC;		/* List of RRFmts for init prog */
 static char	gcvFloatBuf[MAX_FLOAT_SIZE]; /* Buffer to hold float data */
+
+/*
+ * Infinities and NaNs have no C literal: "%g" prints them as `inf'/`nan',
+ * which is not a C expression.  Emit a constant expression instead.
+ */
+local CCode
+gc0FloatConst(DFloat d)
+{
+	if (d != d)
+		return ccoFloatVal(symIntern("(0.0/0.0)"));
+	if (d - d != 0.0)
+		return ccoFloatVal(symIntern(d > 0.0 ? "(1.0/0.0)" : "(-1.0/0.0)"));
+	return ccoFloatOf(gcvFloatBuf, d);
+}
 /*static int	gcvSMax = 2000;*/	/* Maximum number of C statements */
 static int	gcvSMax = 0;		/* Maximum number of C statements */
 static int	gcvIdLen = 30;		/* Maximum length of C identifier */
@@ -3908,10 +3922,10 @@ gccVal(Foam foam)
 		cc = gccBInt(foam);
 		break;
 	  case FOAM_SFlo:
-		cc = ccoFloatOf(gcvFloatBuf, foamToSFlo(foam));
+		cc = gc0FloatConst((DFloat) foamToSFlo(foam));
 		break;
 	  case FOAM_DFlo:
-		cc = ccoFloatOf(gcvFloatBuf, foamToDFlo(foam));
+		cc = gc0FloatConst(foamToDFlo(foam));
 		break;
 	  case FOAM_Arr:
 		cc = gccArr(foam);
